@@ -6,9 +6,21 @@
 (* State mirrors the Go struct: store (session -> stream -> dataList{first,   *)
 (* data}), nBytes, maxBytes.  Ghost: appended (everything appended to a       *)
 (* stream since it was (re)created), lastSz (size of the most recent item).   *)
+(*                                                                            *)
+(* After is two-phase in the code: After(s,t,i) only builds a lazy iterator    *)
+(* (it touches nothing, not even s.mu); every RANGING of that iterator is one  *)
+(* read: its first step takes a copy of the retained suffix under s.mu (or     *)
+(* fails), later steps hand out the copy.  Iterator objects are state (`its`): *)
+(* Get creates one, Begin starts a ranging (the linearization point of the     *)
+(* read, first item delivered), Next delivers the next item or observes the    *)
+(* end, Stop abandons the ranging.  A finished or abandoned iterator can be    *)
+(* ranged again (package iter: "calling the iterator again walks the sequence  *)
+(* again") and every other action may be interleaved anywhere.  The atomic     *)
+(* action After is Get+Begin+Next* with nothing in between.                    *)
 EXTENDS Integers, Sequences, FiniteSets, TLC
 
-CONSTANTS Sessions, Streams, Sizes, Limits, DefaultMax
+CONSTANTS Sessions, Streams, Sizes, Limits, DefaultMax,
+          Iters      \* identities of iterator objects held by callers (may be {})
 
 Pairs == Sessions \X Streams
 
@@ -20,9 +32,13 @@ VARIABLES open,      \* set of pairs present in the store map
           lastSz,    \* ghost: size of the most recently appended item
           cnt,       \* ghost: number of appends so far (item identity)
           res,       \* result of the last operation
-          panicked
+          panicked,
+          its        \* [Iters -> iterator object]: st ("free" | "held" | "live"), p, idx: the arguments After
+                     \* was called with; snap, pos: the copy taken when the ranging began and how many of
+                     \* its items have been delivered; want (ghost): what this ranging has to replay;
+                     \* stale (ghost): the stream was released by SessionClosed since After was called
 
-svars == <<open, first, data, nBytes, maxBytes, appended, lastSz, cnt, res, panicked>>
+svars == <<open, first, data, nBytes, maxBytes, appended, lastSz, cnt, res, panicked, its>>
 
 RECURSIVE SumSz(_)
 SumSz(q) == IF q = <<>> THEN 0 ELSE Head(q).sz + SumSz(Tail(q))
@@ -46,6 +62,9 @@ PurgeRound(st) ==
 RECURSIVE Purge(_)
 Purge(st) == IF st.n <= st.max \/ st.stuck THEN st ELSE Purge(PurgeRound(st))
 
+NoPair == <<"", "">>
+NoIter == [st |-> "free", p |-> NoPair, idx |-> 0, snap |-> <<>>, pos |-> 0, want |-> <<>>, stale |-> FALSE]
+
 Cur == [open |-> open, data |-> data, first |-> first, n |-> nBytes, max |-> maxBytes, stuck |-> FALSE]
 
 Install(st) == /\ data' = st.data /\ first' = st.first /\ nBytes' = st.n /\ maxBytes' = st.max
@@ -55,11 +74,12 @@ Init == /\ open = {} /\ first = [p \in Pairs |-> 0] /\ data = [p \in Pairs |-> <
         /\ nBytes = 0 /\ maxBytes = DefaultMax
         /\ appended = [p \in Pairs |-> <<>>] /\ lastSz = 0 /\ cnt = 0
         /\ res = [kind |-> "none"] /\ panicked = FALSE
+        /\ its = [k \in Iters |-> NoIter]
 
 Open(s, t) ==
   /\ open' = open \cup {<<s, t>>}
   /\ res' = [kind |-> "ok"]
-  /\ UNCHANGED <<first, data, nBytes, maxBytes, appended, cnt, panicked, lastSz>>
+  /\ UNCHANGED <<first, data, nBytes, maxBytes, appended, cnt, panicked, lastSz, its>>
 
 \* Append: init the stream, purge FIRST, then store (so the newest item is always present).
 AppendSt(p) == Purge([Cur EXCEPT !.open = open \cup {p}])
@@ -69,6 +89,7 @@ AppendItem(s, t, n, sz) ==
   /\ appended' = [appended EXCEPT ![<<s, t>>] = Append(@, [n |-> n, sz |-> sz])]
   /\ lastSz' = sz /\ cnt' = cnt + 1
   /\ res' = [kind |-> "ok"]
+  /\ UNCHANGED its
 
 \* model-checking form: the item's identity is the append counter
 AppendSz(s, t, sz) == \E n \in {cnt} : AppendItem(s, t, n, sz)
@@ -83,12 +104,12 @@ AfterResult(s, t, i) ==
 
 After(s, t, i) ==
   /\ res' = AfterResult(s, t, i)
-  /\ UNCHANGED <<open, first, data, nBytes, maxBytes, appended, cnt, panicked, lastSz>>
+  /\ UNCHANGED <<open, first, data, nBytes, maxBytes, appended, cnt, panicked, lastSz, its>>
 
 SetMax(m) ==
   /\ Install(Purge([Cur EXCEPT !.max = IF m = 0 THEN DefaultMax ELSE m]))
   /\ res' = [kind |-> "ok"]
-  /\ UNCHANGED <<appended, cnt, lastSz>>
+  /\ UNCHANGED <<appended, cnt, lastSz, its>>
 
 Closed(s) ==
   LET gone == {p \in open : p[1] = s} IN
@@ -98,7 +119,76 @@ Closed(s) ==
   /\ first' = [p \in Pairs |-> IF p \in gone THEN 0 ELSE first[p]]
   /\ appended' = [p \in Pairs |-> IF p \in gone THEN <<>> ELSE appended[p]]
   /\ res' = [kind |-> "ok"]
+  \* ghost: the iterators whose stream has just been released (SessionClosed itself knows nothing of iterators)
+  /\ its' = [k \in Iters |-> IF its[k].st # "free" /\ its[k].p \in gone THEN [its[k] EXCEPT !.stale = TRUE] ELSE its[k]]
   /\ UNCHANGED <<maxBytes, cnt, panicked, lastSz>>
+
+-----------------------------------------------------------------------------
+\* Iterator objects: After in two phases
+
+\* what the property says a read of stream p after index i returns in the current state
+ExactResult(p, i) ==
+  IF p \notin open THEN [kind |-> "unknown"]
+  ELSE IF i + 1 < first[p] THEN [kind |-> "purged"]
+  ELSE [kind |-> "items", items |-> (IF i + 1 >= Len(appended[p]) THEN <<>>
+                                     ELSE SubSeq(appended[p], i + 2, Len(appended[p])))]
+
+StoreUnchanged == UNCHANGED <<open, first, data, nBytes, maxBytes, appended, cnt, panicked, lastSz>>
+
+\* After(s,t,i) as the code executes it: build the closure, read nothing.  An iterator that is being
+\* ranged is not replaced (the caller holds it); a finished one may be.
+Get(k, s, t, i) ==
+  /\ its[k].st # "live"
+  /\ its' = [its EXCEPT ![k] = [NoIter EXCEPT !.st = "held", !.p = <<s, t>>, !.idx = i]]
+  /\ res' = [kind |-> "ok"]
+  /\ StoreUnchanged
+
+\* the first step of a ranging: copyData under s.mu, then the first item (or the error, or the end)
+BeginOut(k) == LET r == AfterResult(its[k].p[1], its[k].p[2], its[k].idx) IN
+               IF r.kind # "items" THEN [kind |-> r.kind]
+               ELSE IF r.items = <<>> THEN [kind |-> "end"]
+               ELSE [kind |-> "item", item |-> r.items[1]]
+Begin(k) ==
+  /\ its[k].st = "held"
+  /\ LET r == AfterResult(its[k].p[1], its[k].p[2], its[k].idx) IN
+       its' = IF r.kind = "items" /\ r.items # <<>>
+              THEN [its EXCEPT ![k].st = "live", ![k].snap = r.items, ![k].pos = 1,
+                               ![k].want = ExactResult(its[k].p, its[k].idx).items]
+              ELSE its   \* error or nothing to replay: the ranging is over at once, the iterator stays usable
+  /\ res' = BeginOut(k)
+  /\ StoreUnchanged
+
+\* a later step: the next item of the copy, or the end of the ranging
+NextOut(k) == IF its[k].pos < Len(its[k].snap) THEN [kind |-> "item", item |-> its[k].snap[its[k].pos + 1]]
+              ELSE [kind |-> "end"]
+IterNext(k) ==
+  /\ its[k].st = "live"
+  /\ its' = IF its[k].pos < Len(its[k].snap) THEN [its EXCEPT ![k].pos = @ + 1]
+            ELSE [its EXCEPT ![k].st = "held", ![k].snap = <<>>, ![k].pos = 0, ![k].want = <<>>]
+  /\ res' = NextOut(k)
+  /\ StoreUnchanged
+
+\* the consumer breaks out of the range loop
+Stop(k) ==
+  /\ its[k].st = "live"
+  /\ its' = [its EXCEPT ![k].st = "held", ![k].snap = <<>>, ![k].pos = 0, ![k].want = <<>>]
+  /\ res' = [kind |-> "ok"]
+  /\ StoreUnchanged
+
+\* the caller lets go of an iterator it is not ranging (not observable in the store; used by the cover graph
+\* and by the trace specification)
+Drop(k) ==
+  /\ its[k].st = "held"
+  /\ its' = [its EXCEPT ![k] = NoIter]
+  /\ res' = [kind |-> "ok"]
+  /\ StoreUnchanged
+
+IterIdx == -1 .. 1
+IterStep ==
+  \/ \E k \in Iters, s \in Sessions, t \in Streams, i \in IterIdx : Get(k, s, t, i)
+  \/ \E k \in Iters : Begin(k)
+  \/ \E k \in Iters : IterNext(k)
+  \/ \E k \in Iters : Stop(k)
 
 Next ==
   \/ \E s \in Sessions, t \in Streams : Open(s, t)
@@ -106,6 +196,7 @@ Next ==
   \/ \E s \in Sessions, t \in Streams, i \in -1..3 : After(s, t, i)
   \/ \E m \in Limits : SetMax(m)
   \/ \E s \in Sessions : Closed(s)
+  \/ IterStep
 
 Spec == Init /\ [][Next]_svars
 
@@ -133,6 +224,19 @@ AfterExactFor(p, i, r) ==
 
 AfterExact == \A s \in Sessions, t \in Streams, i \in -1..4 :
                  AfterExactFor(<<s, t>>, i, AfterResult(s, t, i))
+
+\* A ranging is ONE read of the stream, taken while it runs: what it hands out - whatever is appended,
+\* evicted, closed or created again between its steps - is what had been appended to the stream after the
+\* index when it began (the purge and unknown-stream outcomes end the ranging at its first step).
+ReplayExact == \A k \in Iters : its[k].st = "live" =>
+                  /\ its[k].snap = its[k].want
+                  /\ its[k].pos \in 1 .. Len(its[k].snap)
+\* an iterator that is not being ranged holds no data (closing a session releases all of its data:
+\* nothing of it stays reachable through an iterator obtained earlier)
+IdleHoldsNothing == \A k \in Iters : its[k].st # "live" => its[k].snap = <<>> /\ its[k].want = <<>>
+\* the copy never changes under the consumer
+SnapshotStable == [][\A k \in Iters : (its[k].st = "live" /\ its'[k].st = "live") =>
+                        /\ its'[k].snap = its[k].snap /\ its'[k].pos >= its[k].pos]_svars
 
 ClosedReleased == \A p \in Pairs : p \notin open => data[p] = <<>> /\ first[p] = 0
 NoPanic == ~panicked
